@@ -126,6 +126,7 @@ def mk_world(p, trie=True, links=False, ghost=True, tag=""):
         p.w["T.size"] = fresh("T_size" + tag, INT)
         p.w["T.hid"] = fresh("T_hid" + tag, INT)
         p.w["T.hver"] = fresh("T_hver" + tag, BYTES)
+        p.assume(blen(p.w["T.hver"]) <= 11)  # codec range of the header's version field (A2)
         for ax in al_axioms():
             p.assume(ax)
         p.assume(AL(p.w["T.size"]))
